@@ -19,7 +19,11 @@ RULE = ("one execution = one RetryExecutor over a manual delegate with 1-6 concu
         "placement site) with at least one retry granted")
 REQUIRED = ["line_events", "lock_acquisitions", "vevent_waits", "timers_fired", "clock_reads"]
 EPS = 0.02
-CLASSES = {"A": UserErrorA, "B": UserErrorB, "O": OtherError}
+class UserBase(BaseException):
+    """an outcome that is not an Exception (like SystemExit / KeyboardInterrupt raised by the callable)"""
+
+
+CLASSES = {"A": UserErrorA, "B": UserErrorB, "O": OtherError, "X": UserBase}
 BASES = {"Exception": Exception, "UserError": UserError, "A": UserErrorA, "A+O": [UserErrorA, OtherError]}
 
 
@@ -56,7 +60,7 @@ def gen_script(rng, policy):
             steps.append(("again",))
         else:
             steps.append(("raise", rng.choice("AAB" + ("O" if policy["kind"] == "exc" else ""))))
-    steps.append(("ret",) if rng.random() < 0.75 else ("raise", rng.choice("AB")))
+    steps.append(("ret",) if rng.random() < 0.7 else ("raise", rng.choice("ABX")))
     return steps
 
 
@@ -104,6 +108,7 @@ class RW(object):
         self.scripts = scripts
         self.durs = durs
         self.subs = []
+        self.escaped = []
         self.pol_objs = []
         if policy["kind"] == "exc":
             self.ex = ctx.own(ME.Executors.with_retry(
@@ -190,6 +195,16 @@ class RW(object):
         st = self.scripts[rec["sid"]][min(a["n"] - 1, len(self.scripts[rec["sid"]]) - 1)]
         a["end_t"] = instr.vnow()
         a["step"] = st
+        try:
+            self._end_attempt(rec, a, st)
+        except (instr.DeadlockBroken, instr.CaseAbort):
+            raise
+        except BaseException as e:
+            # the library's done-callback let an exception escape into the thread completing the delegate future
+            self.escaped.append((rec["sid"], a["n"], e))
+        a["after_seq"] = LOG.add("attempt.end.ret", sid=rec["sid"], n=a["n"])
+
+    def _end_attempt(self, rec, a, st):
         if st[0] == "ret":
             a["end_seq"] = LOG.add("attempt.end", sid=rec["sid"], n=a["n"], how="ret")
             self.me.complete(a["item"], ("v", rec["sid"], a["n"]))
@@ -201,7 +216,6 @@ class RW(object):
             a["exc"] = e
             a["end_seq"] = LOG.add("attempt.end", sid=rec["sid"], n=a["n"], how="raise")
             self.me.fail(a["item"], e)
-        a["after_seq"] = LOG.add("attempt.end.ret", sid=rec["sid"], n=a["n"])
 
     def run(self, horizon=400.0):
         limit = instr.vnow() + horizon
@@ -231,6 +245,9 @@ class RW(object):
         self.scan()
         granted = 0
         pol = self.policy
+        for (sid, n, e) in self.escaped:
+            res.violation("callback-raised-into-delegate/%s" % type(e).__name__,
+                          "%s sub %d: ending attempt %d let %r escape from the library's done-callback into the completing thread" % (label, sid, n, e))
         for rec in self.subs:
             steps = self.scripts[rec["sid"]]
             n_exp, delays, sr_exp, st_exp = model(pol, steps)
